@@ -1,0 +1,12 @@
+//go:build verif
+
+package extension
+
+// Emit (synchronous broker): listeners are arbitrary code (Lua handlers), so the result is an
+// arbitrary, possibly nil, freshly produced value; listeners receive a copy of the event and have no
+// access to the emitter's state, so nothing the caller can see changes.  The engine records the
+// returned pointer in the ghost cell ghost_lastEmit(broker) so callers' contracts can refer to it.  The loop itself (first
+// non-nil answer wins, later listeners not called) is verified separately on the instantiations.
+//@ func (*EventBroker).Emit
+//@   trusted
+//@   attr result-ghost=ghost_lastEmit
